@@ -113,6 +113,15 @@ theorem concat_left_operand_first (fns : List FnDef) (n : Nat) (env env1 env2 : 
   simp only [evalExpr, bind_eq, R.bind_yields hl, R.bind_yields hr]
   simp [pure_eq, R.ok, R.yields]
 
+/-- … the same for `l + r` on lists (`List.concat`, the other operator `desugared_binop` lowers in
+    the modelled language): the calls are `t1 ++ t2` and the value is the concatenation. -/
+theorem concat_list_left_operand_first (fns : List FnDef) (n : Nat) (env env1 env2 : Env) (l r : Expr)
+    (t1 t2 : Trace) (a b : List Int)
+    (hl : (evalExpr fns n env l).yields t1 (env1, .list a)) (hr : (evalExpr fns n env1 r).yields t2 (env2, .list b)) :
+    (evalExpr fns (n + 1) env (.concat l r)).yields (t1 ++ t2) (env2, .list (a ++ b)) := by
+  simp only [evalExpr, bind_eq, R.bind_yields hl, R.bind_yields hr]
+  simp [pure_eq, R.ok, R.yields]
+
 /-- … and if the right operand leaves the function, the calls are the left operand's, then the
     right operand's up to that point -/
 theorem concat_operand_leaves (fns : List FnDef) (n : Nat) (env env1 : Env) (l r : Expr)
@@ -634,6 +643,23 @@ theorem lowerS_concat_left_first_partial (fns : List FnDef) (P : Prog) (hP : low
     | mk tr out => rw [hh] at h1 h2; simp at h1 h2; rw [h1, h2]
   exact lowerE_trace_partial fns P hP (n + 1) _ env env2 c c' code value σ _ _ hlow ha hev
 
+open RotoV.LowerS in
+/-- … and for `+` on lists: the structured MIR of `l + r` makes exactly `t1 ++ t2` and builds the
+    concatenated list. (Partial for the same reasons as `lowerS_trace_partial`.) -/
+theorem lowerS_concat_list_left_first_partial (fns : List FnDef) (P : Prog) (hP : lowerProg fns = some P) (n : Nat)
+    (l r : Expr) (env env1 env2 : Env) (c c' : Nat) (code : Code) (value : Value) (σ : Store)
+    (t1 t2 : Trace) (a b : List Int)
+    (hlow : lowerE (.concat l r) c = some (code, value, c')) (ha : Agree env σ)
+    (hl : (evalExpr fns n env l).yields t1 (env1, .list a)) (hr : (evalExpr fns n env1 r).yields t2 (env2, .list b)) :
+    ∃ σ1 ta tb, ExecC P σ code ta (.normal σ1) ∧ EvalV P σ1 value tb (.list (a ++ b))
+      ∧ t1 ++ t2 = ta ++ tb ∧ Agree env2 σ1 := by
+  have hp := concat_list_left_operand_first fns n env env1 env2 l r t1 t2 a b hl hr
+  have hev : evalExpr fns (n + 1) env (.concat l r) = ⟨t1 ++ t2, .ok (env2, .list (a ++ b))⟩ := by
+    obtain ⟨h1, h2⟩ := hp
+    cases hh : evalExpr fns (n + 1) env (.concat l r) with
+    | mk tr out => rw [hh] at h1 h2; simp at h1 h2; rw [h1, h2]
+  exact lowerE_trace_partial fns P hP (n + 1) _ env env2 c c' code value σ _ _ hlow ha hev
+
 /-- What a function body hands back: its value, or the operand of the `return` that ended it. -/
 def bodyValue : Out (Env × Val) → Option Val
   | .ok (_, v) => some v
@@ -930,6 +956,14 @@ example : ((evalExpr [] 12 [] (.concat (emitS 1 strE) (.ret (emitI 2 7)))).tr.ma
 example : (evalExpr [] 12 [] (.concat (emitS 1 strE) (.ret (emitI 2 7)))).out = .ret (.int 7) := by decide
 -- lowerS_concat_left_first_partial: the concatenation is in the lowering model's fragment
 example : (lowerE (.concat (emitS 1 strE) (emitS 2 (emitS 3 strE))) 0).isSome = true := by decide
+-- concat_list_left_operand_first / lowerS_concat_list_left_first_partial:
+-- `emit_l(1, [4]) + emit_l(2, emit_l(3, [5]))` — keys 1, 3, 2; value [4, 5]
+def emitL (k : Int) (e : Expr) : Expr := .host 7 (.cons (.lit (.int k)) (.cons e .nil))
+def listE (x : Int) : Expr := .list (.cons (.lit (.int x)) .nil)
+example : (evalExpr [] 12 [] (.concat (emitL 1 (listE 4)) (emitL 2 (emitL 3 (listE 5))))).yields
+    [⟨7, [.int 1, .list [4]]⟩, ⟨7, [.int 3, .list [5]]⟩, ⟨7, [.int 2, .list [5]]⟩] ([], .list [4, 5]) := by decide
+example : (evalExpr [] 11 [] (emitL 1 (listE 4))).yields [⟨7, [.int 1, .list [4]]⟩] ([], .list [4]) := by decide
+example : (lowerE (.concat (emitL 1 (listE 4)) (emitL 2 (emitL 3 (listE 5)))) 0).isSome = true := by decide
 end nonvacuity
 
 end RotoV.C08
